@@ -114,6 +114,25 @@ func execC16Burst(e *Env, pp any) {
 		e.Note("proxy.drop")
 	}
 	const prop = "C16"
+	// Whatever was dropped, what does arrive arrives once and in order: the
+	// received messages are an in-order subsequence of the sent ones. (Losses are
+	// judged below; a reordering or a duplicate is never explained by a drop.)
+	histMu.Lock()
+	gotSoFar := append([][]byte(nil), r.CGot...)
+	histMu.Unlock()
+	lastSeq := -1
+	for i, m := range gotSoFar {
+		cc, d, sq, ok := payloadTag(m)
+		if !ok || cc != c.ID || d != 'h' || sq >= r.HSent || !bytes.Equal(m, sim.hmsg(c, sq)) {
+			e.Violate(prop, "altered", "proxy.burst", "message #%d received through the proxy is not one the handler sent (tag call=%d dir=%c seq=%d ok=%v)", i, cc, d, sq, ok)
+			break
+		}
+		if sq <= lastSeq {
+			e.Violate(prop, "reordered-or-duplicated", "proxy.burst", "message seq=%d arrived after seq=%d (received #%d of a %d-message burst; %d overflow events at the proxy)", sq, lastSeq, i, r.HSent, drops)
+			break
+		}
+		lastSeq = sq
+	}
 	if !r.Returned {
 		// a dropped trailer leaves the receiver waiting: not "reported complete"
 		if drops > 0 {
